@@ -183,6 +183,18 @@ PROPS['C14'] = {
     'level_text': 'bounded model checking of each semantic check for every table state and operand value; grammar-level emptiness by SMT over the real grammar',
     'level_note': 'partial claim: the two driver-level checks are outside',
 }
+PROPS['C18'] = {
+    'explanation': 'interrupts::int_21 (AH=1, 2, 0Ah) and int_13 (INT 10h AH=0Ah, 13h) of the binary crate, with the console boundary replaced: print! -> ghost log of '
+                   '(format literal, argument values), stdin read_line -> arbitrary bounded ASCII line.  Exact output events, AL results, stored count / bytes, and the frame '
+                   '(no other cell, register or flag changes; no address outside 1 MiB; no abort)',
+    'bounds': 'input line: lengths 0, 1, 2 enumerated with symbolic content (quick), + 3 and 6 (AH=1) in the thorough tier; CX <= 4 / 8, DL <= 4 / 8 for the output loops; capacity byte, DS:DX, ES:BP, memory unconstrained',
+    'outside': 'AH validation, "unsupported ... stops the program" and the int n dispatch (inside CMDDriver::run); real terminal behaviour; longer input lines (std String code over a symbolic length plus a symbolic memory index does not finish on any back end)',
+    'backends': [(r'int10', ['sat-arrays', ('z3', 'cvc5')]), (r'.*', [('z3', 'cvc5'), 'sat-arrays'])],
+    'timeout': {'quick': 600, 'thorough': 2400},
+    'assumptions': ['in the scratch copy std::io::stdin().read_line is textually replaced by a stub and print!/println! are shadowed by logging macros (lib/gen.py); input is 7-bit ASCII without embedded line terminators'],
+    'level_text': 'bounded model checking of the service routines for every register / memory state and every input line within the bound',
+    'level_note': 'trusted: Kani/CBMC/solver soundness, std::fmt for turning the logged values into text',
+}
 
 NOT_APPLICABLE = {
     'C13': 'macro definition/use is regex::Regex + a recursive call of the generated parser on heap strings; Kani cannot compile the regex engine or the LALRPOP driver (compiler ICE), and a hand model of the substitution would not be the real code',
